@@ -163,6 +163,19 @@ func famCheck(o *Out, r R, tier string) {
 		}
 		emit("element-lengths", names, []string{names[0] + "," + names[1] + "," + names[2]})
 	}
+	// every allowed name on a line of its own, in order, then k empty lines (the whole budget and around it), then one more
+	// line: anything the scanner does with the NUMBER of lines shows here
+	for _, names := range [][]string{{"x-bar", "x-foo"}, {"a"}, {"x-a", "x-b", "x-c", "x-d"}} {
+		for k := 13; k <= 19; k++ {
+			for _, last := range []string{"x-evil", names[len(names)-1], names[0], "", ","} {
+				lines := append([]string{}, names...)
+				lines = append(lines, make([]string, k)...)
+				lines = append(lines, last)
+				emit("one-per-line", names, lines)
+				emit("one-per-line", names, append(append(make([]string, k), names...), last))
+			}
+		}
+	}
 	// name-less lines between lines with names (the position of the last name seen must survive them)
 	for _, gap := range []string{"", ",", " ", "\t,", ",,", " , "} {
 		base3 := []string{"x-bar", "x-baz", "x-foo"}
